@@ -21,7 +21,7 @@ CHUNK = 2500
 # proposed repairs (fixes/C07-*.patch) already committed to the tree under test: the transcription (T) follows them.
 # Names: "det", "einsum", "intersect1d", "methods".  P never depends on this.
 TREE_FIXES = ("det", "einsum", "intersect1d", "methods")  # /repo HEAD carries these repairs (fix: commits 624838b..5b37fc0)
-CASE_KEYS = ("f", "t", "sh", "n", "da", "u", "v", "rg", "ok", "pat", "rd", "r", "dt", "real", "ds", "cls", "hcls", "sig", "io", "exact", "nocov", "novals", "unord", "od", "tb", "tv")
+CASE_KEYS = ("f", "t", "sh", "n", "da", "u", "v", "rg", "ok", "bm", "bk", "pat", "rd", "r", "dt", "real", "ds", "cls", "hcls", "sig", "io", "exact", "nocov", "novals", "unord", "od", "tb", "tv")
 
 
 def _key(r):
@@ -32,9 +32,11 @@ def _key(r):
         "clause": r["clause"],
         "out": r["out"],
         "sh": r["sh"],
-        "reexpressed": "registries" if r["pat"] == "reg" else ("one-operand" if r["mixed"] else "all"),
-        "data": "offset-units" if "Th" in r["da"] else ({"i8": "int", "f4": "float32", "c16": "complex"}.get(r["dt"]) or ("ordinary-units" if r["real"] else "dyadic")),
+        "reexpressed": "registries" if r["pat"] == "reg" else ("all" if r["pat"] == "bare" else "one-operand" if r["mixed"] else "all"),
+        "data": "offset-units" if "Th" in r["da"] else "temperature-units" if "Tm" in r["da"] else ({"i8": "int", "f4": "float32", "c16": "complex"}.get(r["dt"]) or ("ordinary-units" if r["real"] else "dyadic")),
         "outkind": {"u": "unyt-other-unit", "r": "unyt-result-unit", "b": "plain-ndarray", "-": "none"}[r["ok"]],
+        # call form: which operands are given bare ("b") / as quantities ("q"); "-" = all quantities
+        "bare": r["bm"] if r["bm"] == "-" else r["bm"] + ":" + {"a": "ndarray", "l": "list"}[r["bk"]],
     }
 
 
@@ -152,7 +154,7 @@ def run(ck):
     cases = res.records
     if len(cases) != res.distinct - 1 or len(cases) < 1000:
         raise MachineryFailure(f"exported {len(cases)} cases for {res.distinct} states")
-    cases.sort(key=lambda c: json.dumps({k: c[k] for k in ("f", "t", "sh", "da", "pat", "rd", "r", "dt", "real", "ds", "u", "rg", "ok")}, sort_keys=True))
+    cases.sort(key=lambda c: json.dumps({k: c[k] for k in ("f", "t", "sh", "da", "pat", "rd", "r", "dt", "real", "ds", "u", "rg", "ok", "bm", "bk")}, sort_keys=True))
     ck.cov["exhaustive"] = True
 
     names = {n for n, _ in cat}
@@ -164,12 +166,12 @@ def run(ck):
     ck.cov["functions_not_demanded"] = sorted(names - {c["f"] for c in cases})
     fams = {}
     for c in cases:
-        k = ("offset" if "Th" in c["da"] else {"i8": "int", "f4": "float32", "c16": "complex"}.get(c["dt"]) or ("real" if c["real"] else "dyadic")) + ":" + ("all" if c["pat"] == "all" else "registries" if c["pat"] == "reg" else "one-operand")
+        k = ("bare" if c["bm"] != "-" else "tm" if "Tm" in c["da"] else "offset" if "Th" in c["da"] else {"i8": "int", "f4": "float32", "c16": "complex"}.get(c["dt"]) or ("real" if c["real"] else "dyadic")) + ":" + ("all" if c["pat"] in ("all", "bare") else "registries" if c["pat"] == "reg" else "one-operand")
         fams[k] = fams.get(k, 0) + 1
     ck.cov["cases_by_family"] = fams
     ck.cov["cases_by_out_kind"] = {k: sum(1 for c in cases if c["ok"] == k) for k in ("u", "r", "b")}
     ck.cov["cases_with_cancelling_units"] = sum(1 for c in cases if any(d in ("iL", "iT") for d in c["da"]))
-    for fam in ("dyadic:all", "dyadic:one-operand", "int:all", "real:all", "dyadic:registries", "real:registries", "offset:all", "offset:one-operand"):
+    for fam in ("dyadic:all", "dyadic:one-operand", "int:all", "real:all", "dyadic:registries", "real:registries", "offset:all", "offset:one-operand", "tm:all", "bare:all"):
         if not fams.get(fam):
             raise MachineryFailure(f"no case of family {fam} generated (vacuous instance)")
     model_cex = {}
